@@ -26,8 +26,7 @@ def leadingDoubleIsZero (s : List Char) : Bool :=
   pre.all (fun c => c == '0' || c == '.')
 
 def positHexClass (n enc : Nat) : String :=
-  if n > 3 && n % 4 != 0 && enc ≥ 2 ^ (4 * (n / 4)) then "text.posit.hex.nbits_not_multiple_of_4"
-  else if n > 64 && enc ≥ 2 ^ 64 then "text.posit.parse.wider_than_64"
+  if n > 64 && enc ≥ 2 ^ 64 then "text.posit.parse.wider_than_64"
   else ""
 
 def textPosit (lhs rhs : List String) : Except String LineResult := do
@@ -40,8 +39,7 @@ def textPosit (lhs rhs : List String) : Except String LineResult := do
       let some enc := parseHex arg | throw "enc"
       let m := positHexFormat n es enc
       let ok := positHexDenotes n es enc out.toList
-      let cls := if n > 3 && n % 4 != 0 && enc ≥ 2 ^ (4 * (n / 4)) then "text.posit.hex.nbits_not_multiple_of_4" else ""
-      return { model := str m, specOk := ok, reason := "the text does not denote the encoding", cls := cls,
+      return { model := str m, specOk := ok, reason := "the text does not denote the encoding",
                tag := s!"posit/hexfmt/{if n % 4 == 0 then "aligned" else "unaligned"}" }
     | "roundtrip" | "rtstream" =>
       let some enc := parseHex arg | throw "enc"
@@ -185,10 +183,9 @@ def textInteger (lhs rhs : List String) : Except String LineResult := do
       let m := match integerOstream n w enc with
         | some l => str l
         | none => "division-by-zero-not-modelled"
-      let cls := if 10 ^ k ≥ 2 ^ n then "text.integer.ostream.block10_overflow" else ""
       return { model := m, specOk := out == decimalOfInt (integerVal n enc),
-               reason := s!"the value is {decimalOfInt (integerVal n enc)}", cls := cls,
-               tag := s!"integer/ostream/{if 10 ^ k ≥ 2 ^ n then "block10-wraps" else "block10-fits"}", trivial := enc == 0 }
+               reason := s!"the value is {decimalOfInt (integerVal n enc)}",
+               tag := s!"integer/ostream/{if 10 ^ k ≥ 2 ^ n then "block10-needs-a-whole-block" else "block10-fits-nbits"}", trivial := enc == 0 }
     | "hexfmt" =>
       let some enc := parseHex arg | throw "enc"
       let m := integerToHex n enc
@@ -201,8 +198,8 @@ def textInteger (lhs rhs : List String) : Except String LineResult := do
         | some v => toHex v
         | none => "fail"
       let ok := parseHex out == some enc
-      let cls := if op == "roundtrip" && n % 8 != 0 && enc ≥ 2 ^ (8 * (n / 8)) then "text.integer.parsehex.top_bits_dropped" else ""
-      return { model := m, specOk := ok, reason := "parse(text(x)) != x", cls := cls, tag := s!"integer/{op}", trivial := enc == 0 }
+      let tag := if op == "roundtrip" then s!"integer/roundtrip/{if n % 8 != 0 && enc ≥ 2 ^ (8 * (n / 8)) then "partial-top-byte" else "whole-bytes"}" else s!"integer/{op}"
+      return { model := m, specOk := ok, reason := "parse(text(x)) != x", tag := tag, trivial := enc == 0 }
     | "parsedec" | "parsehex" =>
       let s := arg.toList
       let m := match integerParse n s with
@@ -215,15 +212,14 @@ def textInteger (lhs rhs : List String) : Except String LineResult := do
       | some x =>
         let wantEnc := ofSigned n x
         let ok := parseHex out == some wantEnc
-        let cls :=
-          if form == .octal then "text.integer.parse.leading_zero_taken_for_octal"
-          else if op == "parsehex" then
-            (if n % 8 != 0 && wantEnc ≥ 2 ^ (8 * (n / 8)) then "text.integer.parsehex.top_bits_dropped"
-             else if x < 0 && hexNibbleCount s ≥ 2 * (n / 8) then "text.integer.parsehex.sign_dropped"
-             else "")
+        let cls := if form == .octal then "text.integer.parse.leading_zero_taken_for_octal" else ""
+        let region :=
+          if op == "parsehex" then
+            (if hexNibbleCount s ≥ 2 * ((n + 7) / 8) then "/full-width" else "/short") ++
+            (if n % 8 != 0 && wantEnc ≥ 2 ^ (8 * (n / 8)) then "/partial-top-byte" else "")
           else ""
         return { model := m, specOk := ok, reason := s!"the text denotes {x}, i.e. encoding {toHex wantEnc}", cls := cls,
-                 tag := s!"integer/{op}/{if signCount s == 0 then "unsigned" else "signed"}" }
+                 tag := s!"integer/{op}/{if signCount s == 0 then "unsigned" else if x < 0 then "negative" else "signed"}{region}" }
     | _ => throw s!"unknown op {op}"
   | _, _ => throw "arity"
 
@@ -273,8 +269,8 @@ def textEdec (lhs rhs : List String) : Except String LineResult := do
       | none => "fail"
     match readSignedDecimal s with
     | some x =>
-      let cls := if decimalTextPadded s then "text.edec.parse.padding_kept" else ""
-      return { model := m, specOk := out == decimalOfInt x, reason := s!"the value is {x}", cls := cls, tag := "edec/parse" }
+      return { model := m, specOk := out == decimalOfInt x, reason := s!"the value is {x}",
+               tag := s!"edec/parse{if decimalTextPadded s then "/padded" else ""}" }
     | none => return { model := m, tag := "edec/parse/not-a-number-text", trivial := true }
   | ["reparse", first, arg], [out] =>
     let s := arg.toList
@@ -284,9 +280,8 @@ def textEdec (lhs rhs : List String) : Except String LineResult := do
       | none => "fail"
     match readSignedDecimal s with
     | some x =>
-      let cls := if neg0 && s.head? != some '-' then "text.edec.parse.sign_sticky"
-                 else if decimalTextPadded s then "text.edec.parse.padding_kept" else ""
-      return { model := m, specOk := out == decimalOfInt x, reason := s!"the value is {x}", cls := cls, tag := "edec/reparse" }
+      return { model := m, specOk := out == decimalOfInt x, reason := s!"the value is {x}",
+               tag := s!"edec/reparse{if neg0 && s.head? != some '-' then "/after-negative" else ""}{if decimalTextPadded s then "/padded" else ""}" }
     | none => return { model := m, tag := "edec/reparse/not-a-number-text", trivial := true }
   | _, _ => throw "arity"
 
